@@ -19,6 +19,9 @@ func init() {
 			"(R3) the template fold threads its accumulator (the string substituted into is the previous iteration's result) and the URL is BaseURL + \"/\" + accumulator; (R4) decoding happens only on the Err == nil edge, a serializer error returns a response with Err set before any request, and the assertion on the user-supplied deserializer's result is comma-ok. Not decided: the bytes of the body, multipart file handling, net/http itself.",
 		Trusted: append([]string{"net/http: a nil error from Client.Do implies a non-nil Response.Body"}, commonTrusted...),
 		Run:     runC17,
+		Relies: []Dep{
+			{Prop: "C01", Rule: "R2", Keys: []string{"IsNil"}, Floor: 1, Why: "the API constructors decide 'no body' with fpgo.IsNil: nil slices/maps must still be serialised"},
+		},
 	})
 }
 
